@@ -97,43 +97,28 @@ Proof. exact pg_ident_cases. Qed.
     [read_ident] / [lex_chain]) as exactly the chain [q; name; ...]: the requested qualifier
     stands as one quoted identifier in front of the reference.
 
-    It is FALSE of the faithful model: [Builder.Ident] writes the name raw, a quote
-    character inside is not doubled (witness: qualifier  a, double quote, b  -- reproduced on the Go code by
-    stage [plan], class ident-quote-unescaped, recorded finding): *)
-Theorem C16_one_identifier_refuted :
-  exists q t, lex_chain 34 34 (render_chain 34 34 [q; t] ++ [SP]) <> Some ([q; t], [SP]) /\
-              lex_chain 34 34 (quote_chain 34 34 [q; t] ++ [SP]) = Some ([q; t], [SP]).
-Proof. exists w_q, w_t. exact raw_quote_refuted. Qed.
-
-(** What does hold.  (i) exactly: ONE raw identifier reads back as its name iff the name
-    is free of the closing quote character; *)
-Theorem C16_one_identifier_exact :
-  forall qc n rest, not_starts qc rest ->
-  (read_ident qc (n ++ qc :: rest) = Some (n, rest) <-> quote_free qc n).
-Proof. exact read_ident_raw_iff. Qed.
-
-(** (ii) every chain of quote-free names, followed by any text that does not continue it,
-    reads back as exactly that chain (with 1a: the chain of a qualifying call under qualifier
-    [q] is [q :: names]); *)
-Theorem C16_one_identifier_except :
+    It holds since fix C16-ident-double-quote-char (/repo: "fix: sqlx.Builder.Ident writes a
+    quote character inside a name twice"); the model's [Ident] follows it.
+    (i) every chain, every name, followed by any text that does not continue it: *)
+Theorem C16_one_identifier :
   forall qo qc l post,
-  qc <> DOT -> l <> [] -> Forall (quote_free qc) l -> chain_ends qo qc post ->
+  qc <> DOT -> l <> [] -> chain_ends qo qc post ->
   lex_chain qo qc (render_chain qo qc l ++ post) = Some (l, post).
 Proof. exact render_chain_reads_back. Qed.
 
-(** (iii) end to end for one qualifying call on ANY builder state: under qualifier [q],
+(** (ii) end to end for one qualifying call on ANY builder state: under qualifier [q],
     [mayQualify] (Table / TableResource / SchemaResource / ...) appends a text that reads as
-    exactly [q :: top :: children] -- whatever schema the object itself carries; *)
+    exactly [q :: top :: children] -- whatever schema the object itself carries, whatever
+    characters the names hold; *)
 Theorem C16_one_identifier_call :
   forall b s top children q,
   bschema b = Some q -> nonempty q -> nonempty top -> Forall nonempty children ->
   qc b <> DOT -> qc b <> SP ->
-  Forall (quote_free (qc b)) (q :: top :: children) ->
   exists pre, out (mayQualify b s top children) = out b ++ pre /\
     lex_chain (qo b) (qc b) pre = Some (q :: top :: children, [SP]).
 Proof. exact mayQualify_reads_back. Qed.
 
-(** (iii') ... and for a qualifying call ANYWHERE in a call sequence (1a + 1i): whatever is
+(** (iii) ... and for a qualifying call ANYWHERE in a call sequence (1a + (i)): whatever is
     called later -- with non-empty names in the later qualifying calls, the caveat of 1a -- the
     byte after the chain is a separator (' ', ',', newline, ')', single quote, '('), never a
     '.', so the server reads exactly the emitted chain: under qualifier [q] it is [q :: names]
@@ -145,19 +130,35 @@ Theorem C16_one_identifier_sequence :
   emitted_chain (bschema b1) o = Some l ->
   wf_op o -> Forall wf_op ops2 ->
   ~ sepA (qc b1) -> qc b1 <> DOT ->
-  Forall (quote_free (qc b1)) l ->
   exists post,
     out (run b (ops1 ++ o :: ops2)) = out b1 ++ render_chain (qo b1) (qc b1) l ++ post /\
     lex_chain (qo b1) (qc b1) (render_chain (qo b1) (qc b1) l ++ post) = Some (l, post).
 Proof. exact builder_reads_back. Qed.
 
-(** (iv) the specification is satisfiable: the spelling with doubled quote characters
-    reads back for EVERY name (what a repaired [Ident] would write). *)
-Theorem C16_quoted_chain_reads_back :
+(** For the record, the RAW spelling (the code before the fix: the name copied between the
+    quotes) was not one identifier for a name with the quote character (formerly
+    C16_one_identifier_refuted; witness: a, double quote, b), *)
+Theorem C16_raw_spelling_refuted :
+  exists q t, lex_chain 34 34 (raw_chain 34 34 [q; t] ++ [SP]) <> Some ([q; t], [SP]) /\
+              lex_chain 34 34 (render_chain 34 34 [q; t] ++ [SP]) = Some ([q; t], [SP]).
+Proof. exists w_q, w_t. exact raw_quote_refuted. Qed.
+
+(** it read back as the name exactly for names free of the closing quote character, *)
+Theorem C16_raw_spelling_exact :
+  forall qc n rest, not_starts qc rest ->
+  (read_ident qc (n ++ qc :: rest) = Some (n, rest) <-> quote_free qc n).
+Proof. exact read_ident_raw_iff. Qed.
+
+Theorem C16_raw_spelling_except :
   forall qo qc l post,
-  qc <> DOT -> l <> [] -> chain_ends qo qc post ->
-  lex_chain qo qc (quote_chain qo qc l ++ post) = Some (l, post).
-Proof. exact quote_chain_reads_back. Qed.
+  qc <> DOT -> l <> [] -> Forall (quote_free qc) l -> chain_ends qo qc post ->
+  lex_chain qo qc (raw_chain qo qc l ++ post) = Some (l, post).
+Proof. exact raw_chain_reads_back. Qed.
+
+(** and on those names both spellings are the same bytes (the fix changes nothing there). *)
+Theorem C16_raw_spelling_same :
+  forall o c n, quote_free c n -> render_ident o c n = raw_ident o c n.
+Proof. exact render_ident_quote_free. Qed.
 
 (** 1l. One plan, one namespace (PostgreSQL).  Full statement: typeIdent / schemaPrefix
     ([%q] = strconv.Quote) and Builder.Table write, for the same qualifier, texts that the
@@ -308,12 +309,13 @@ Print Assumptions C16_builder_schema_kept.
 Print Assumptions C16_builder_requalify.
 Print Assumptions C16_builder_agnostic.
 Print Assumptions C16_builder_pg.
-Print Assumptions C16_one_identifier_refuted.
-Print Assumptions C16_one_identifier_exact.
-Print Assumptions C16_one_identifier_except.
+Print Assumptions C16_one_identifier.
 Print Assumptions C16_one_identifier_call.
 Print Assumptions C16_one_identifier_sequence.
-Print Assumptions C16_quoted_chain_reads_back.
+Print Assumptions C16_raw_spelling_refuted.
+Print Assumptions C16_raw_spelling_exact.
+Print Assumptions C16_raw_spelling_except.
+Print Assumptions C16_raw_spelling_same.
 Print Assumptions C16_pg_same_namespace_refuted.
 Print Assumptions C16_pg_same_namespace_except.
 Print Assumptions C16_replay_repaired.
@@ -430,7 +432,7 @@ Example ex_skeleton_modify :
 Proof. vm_compute. reflexivity. Qed.
 
 (* round 3 *)
-(* C16_one_identifier_except / _call: qualifier acme.v2 (a dot inside), table <my t>, MySQL quotes *)
+(* C16_one_identifier / _call: qualifier acme.v2 (a dot inside), table <my t>, MySQL quotes *)
 Definition acme_v2 : bytes := [97; 99; 109; 101; 46; 118; 50].
 Definition my_t : bytes := [109; 121; 32; 116].
 Example ex_one_identifier :
@@ -439,16 +441,19 @@ Example ex_one_identifier :
   lex_chain 96 96 (out (Table b (mkObj (Some m_) my_t))) = Some ([acme_v2; my_t], [SP]).
 Proof. split; vm_compute; reflexivity. Qed.
 
-(* C16_one_identifier_exact: both directions are inhabited *)
-Example ex_one_identifier_exact :
+(* C16_raw_spelling_exact: both directions are inhabited *)
+Example ex_raw_spelling_exact :
   read_ident 34 ([97; 46; 98] ++ 34 :: [SP]) = Some ([97; 46; 98], [SP]) /\
   read_ident 34 ([97; 34; 98] ++ 34 :: [SP]) = Some ([97], [98; 34; SP]).
 Proof. split; vm_compute; reflexivity. Qed.
 
-(* C16_quoted_chain_reads_back: the witness of the refutation, spelled correctly *)
+(* C16_one_identifier on the former witness: qualifier a, double quote, b through the model's Table *)
 Example ex_quoted_chain :
-  quote_chain 34 34 [w_q; w_t] = [34; 97; 34; 34; 98; 34; 46; 34; 116; 34].
-Proof. vm_compute. reflexivity. Qed.
+  render_chain 34 34 [w_q; w_t] = [34; 97; 34; 34; 98; 34; 46; 34; 116; 34] /\
+  out (Table (new_builder 34 34 (Some w_q) []) (mkObj (Some m_) w_t)) = render_chain 34 34 [w_q; w_t] ++ [SP] /\
+  lex_chain 34 34 (out (Table (new_builder 34 34 (Some w_q) []) (mkObj (Some m_) w_t))) = Some ([w_q; w_t], [SP]) /\
+  raw_chain 34 34 [w_q; w_t] = [34; 97; 34; 98; 34; 46; 34; 116; 34].
+Proof. repeat split; vm_compute; reflexivity. Qed.
 
 (* C16_pg_same_namespace_*: a plain qualifier with a dot and a space; the backslash witness *)
 Example ex_pg_same_namespace :
